@@ -60,7 +60,7 @@ def remove_article(s: str) -> str:
 
 
 def _collect_typevars(d: t.Dict[t.Union[t.TypeVar, ParamSpec], None], ty: t.Any):
-    if isinstance(ty, type):
+    if isinstance(ty, (type, str, bytes)):
         pass
     elif isinstance(ty, (tuple, t.Sequence)):
         ty = t.cast(t.Sequence[t.Any], ty)
@@ -137,6 +137,9 @@ def replace_typevars(ty: t.Any,
         uncached = getattr(getattr(type(base), '__getitem__', None), '__wrapped__', None)
         if uncached is not None:
             result = uncached(base, args)
+        elif hasattr(result, 'copy_with'):
+            # e.g. `Annotated[...]`, whose subscription has no undecorated form (its metadata is not a parameter)
+            result = result.copy_with(args[:1] if base is t.Annotated else args)
     return result
 
 
